@@ -45,23 +45,30 @@ def one(sid):
 with cf.ThreadPoolExecutor(jobs) as ex:
     list(ex.map(one, ids))
 
-# ---- README table
+# ---- README tables (one per round)
 allids = sorted(d for d in os.listdir(os.path.join(V, "seeded")) if os.path.isdir(os.path.join(V, "seeded", d)))
-rows, caught = [], 0
+rows = {1: [], 2: []}
+caught = {1: 0, 2: 0}
 for sid in allids:
     m = json.load(open(os.path.join(V, "seeded", sid, "meta.json")))
     det = m["detection"]
-    caught += bool(det["caught_by"])
-    rows.append("| %s | %s | %s | %s | %s | %s |" % (sid, m["breaks_property"], m.get("kind_of_trigger", ""), ", ".join(det["caught_by"]) or "none",
-                                                   ", ".join(det["missed_by"] + ["%s (no verdict)" % c for c in det.get("no_verdict", [])]),
-                                                   det.get("strengthening", "").replace("|", "/")))
+    rnd = m.get("round", 1)
+    caught[rnd] += bool(det["caught_by"])
+    rows[rnd].append("| %s | %s | %s | %s | %s | %s |" % (sid, m["breaks_property"], m.get("kind_of_trigger", ""), ", ".join(det["caught_by"]) or "none",
+                                                        ", ".join(det["missed_by"] + ["%s (no verdict)" % c for c in det.get("no_verdict", [])]),
+                                                        det.get("strengthening", "").replace("|", "/")))
+HDR = "| ID | property | trigger | caught by | missed by | strengthening made |\n|---|---|---|---|---|---|\n"
 p = os.path.join(V, "seeded", "README.md")
 s = open(p).read()
 a = s.index("## Results")
 s = s[:a] + ("## Results\n\nCheck id = property id of the check in `/verif/check`.  \"caught by\" / \"missed by\" are measured by "
-             "`tools/seedmatrix.py` (%s tier; each meta.json records the command, the /verif commit and the first violation line); "
-             "\"strengthening made\" is what was added to a check because of the seed (empty = the check caught it as it stood).  "
-             "%d of %d seeds are caught by at least one check.\n\n| ID | property | trigger | caught by | missed by | strengthening made |\n|---|---|---|---|---|---|\n"
-             % (tier, caught, len(allids))) + "\n".join(rows) + "\n"
+             "`tools/seedmatrix.py` (each meta.json records the command, the tier, the /verif commit and the first violation line under "
+             "`measured`); \"strengthening made\" is what was added to a check because of the seed (empty = the check caught it as it stood).  "
+             "Round 1: %d of %d seeds are caught by at least one check.\n\n" % (caught[1], len(rows[1]))) + HDR + "\n".join(rows[1]) + "\n"
+if rows[2]:
+    s += ("\n## Round 2\n\nA second, independent set of %d changes, written to differ in site and mechanism from round 1 (the authors were "
+          "given one-line summaries of the two round-1 changes of their property).  %d of %d are caught by at least one check.  Side "
+          "observation of the C03 round-2 author, confirmed and repaired: compiling `/(a)(?P<1>b)/` inside a decorator was "
+          "nondeterministic (fix eca4fb46 in /repo).\n\n" % (len(rows[2]), caught[2], len(rows[2]))) + HDR + "\n".join(rows[2]) + "\n"
 open(p, "w").write(s)
-print("caught %d of %d" % (caught, len(allids)))
+print("caught: round 1 %d of %d, round 2 %d of %d" % (caught[1], len(rows[1]), caught[2], len(rows[2])))
